@@ -231,6 +231,12 @@ impl StreamingLoop {
             let mut first_buf_len = None;
             let mut last_buf_len = None;
             let mut payload_len = 0;
+            // Payload transfers are written at fixed offsets of `payload_buf`, so the received
+            // bytes are contiguous only if every transfer is completely filled until the payload
+            // ends, i.e. once a transfer is short the following payload transfers must be empty.
+            let mut payload_transfer_idx = 0;
+            let mut payload_is_short = false;
+            let mut payload_has_gap = false;
 
             while !async_pool.is_empty() {
                 #[cfg(cameleon_verif)]
@@ -249,12 +255,33 @@ impl StreamingLoop {
                     first_buf_len = Some(len);
                 } else {
                     payload_len += len;
+                    // The last transfer is the trailer, all the others are payload transfers.
+                    if !async_pool.is_empty() {
+                        if payload_is_short && len != 0 {
+                            payload_has_gap = true;
+                        }
+                        if len < self.params.payload_transfer_size(payload_transfer_idx) {
+                            payload_is_short = true;
+                        }
+                        payload_transfer_idx += 1;
+                    }
                 }
 
                 last_buf_len = Some(len);
             }
 
             let payload_len = payload_len - last_buf_len.unwrap();
+
+            if payload_has_gap {
+                let err = StreamError::InvalidPayload(
+                    "a payload transfer received data after a preceding payload transfer wasn't filled completely".into(),
+                );
+                warn!(?err);
+                // Reuse `payload_buf`.
+                payload_buf_opt = Some(payload_buf);
+                self.sender.try_send(Err(err)).ok();
+                continue;
+            }
 
             // We received the data from the bulk transfers, try to parse stuff now.
             // Only the bytes received in this iteration are parsed: the rest of `leader_buf` and
@@ -528,6 +555,18 @@ impl StreamParams {
     /// NOTE: Payload size may dynamically change according to settings of camera.
     pub fn maximum_payload_size(&self) -> usize {
         self.payload_size * self.payload_count + self.payload_final1_size + self.payload_final2_size
+    }
+
+    /// Return the size of the `index`-th payload transfer of a frame: `payload_count` transfers of
+    /// `payload_size` bytes, followed by the final1 and final2 transfers if their sizes aren't zero.
+    fn payload_transfer_size(&self, index: usize) -> usize {
+        if index < self.payload_count {
+            self.payload_size
+        } else if index == self.payload_count && self.payload_final1_size != 0 {
+            self.payload_final1_size
+        } else {
+            self.payload_final2_size
+        }
     }
 }
 
